@@ -1,8 +1,8 @@
 package main
 
 // Waitstress family (supporting C06, C03): free-running.  Several goroutines publish to asynchronous handlers and call
-// Wait; after every Wait a goroutine checks that the handlers of all events it had published before the call have
-// finished.  The count of running handlers keeps touching zero while other goroutines publish - the window inside the
+// Wait; after every Wait a goroutine checks that the handlers of all events it had published before the call - and the
+// handlers of what those handlers published - have finished.  The count of running handlers keeps touching zero while other goroutines publish - the window inside the
 // counter that the controller cannot reach.  A watchdog reports a Wait that never returns.
 
 import (
@@ -16,7 +16,14 @@ import (
 	eb "github.com/jilio/ebu"
 )
 
-type wsE struct{ G, I int }
+type wsE struct {
+	G, I int
+	N    bool // published by a handler (of the other type)
+}
+type wsF struct {
+	G, I int
+	N    bool
+}
 
 func runWaitStress(rng *rand.Rand, idx int, tier string) Case {
 	G := 2 + rng.Intn(5)
@@ -41,7 +48,26 @@ func runWaitStress(rng *rand.Rand, idx int, tier string) Case {
 	isDead := func(i int) bool { return seqAll && i%deadEvery == deadEvery-1 }
 	dead, cancelDead := context.WithCancel(context.Background())
 	cancelDead()
+	// nested asynchronous work across two event types, in both directions (the types live in different lock shards):
+	// the first handler of an event with I%4==1 publishes a wsF, the handler of a directly published wsF (I%4==3)
+	// publishes a wsE; Wait must cover the nested handlers too
+	doneN := make([][]atomic.Bool, G)
+	for g := range doneN {
+		doneN[g] = make([]atomic.Bool, K)
+	}
+	hasNested := func(i int) bool { return !isDead(i) && (i%4 == 1 || i%4 == 3) }
 	var running atomic.Int64
+	eb.Subscribe(bus, func(e wsF) {
+		running.Add(1)
+		runtime.Gosched()
+		if e.N {
+			doneN[e.G][e.I].Store(true)
+		} else {
+			done[e.G][e.I].Store(true)
+			eb.Publish(bus, wsE{e.G, e.I, true})
+		}
+		running.Add(-1)
+	}, eb.Async())
 	for h := 0; h < nh; h++ {
 		first := h == 0
 		eb.Subscribe(bus, func(e wsE) {
@@ -50,7 +76,14 @@ func runWaitStress(rng *rand.Rand, idx int, tier string) Case {
 				runtime.Gosched()
 			}
 			if first {
-				done[e.G][e.I].Store(true)
+				if e.N {
+					doneN[e.G][e.I].Store(true)
+				} else {
+					done[e.G][e.I].Store(true)
+					if e.I%4 == 1 {
+						eb.Publish(bus, wsF{e.G, e.I, true})
+					}
+				}
 			}
 			running.Add(-1)
 		}, func() []eb.SubscribeOption {
@@ -74,15 +107,18 @@ func runWaitStress(rng *rand.Rand, idx int, tier string) Case {
 					}
 				}()
 				for i := 0; i < K; i++ {
-					if isDead(i) {
-						eb.PublishContext(bus, dead, wsE{g, i})
-					} else {
-						eb.Publish(bus, wsE{g, i})
+					switch {
+					case isDead(i):
+						eb.PublishContext(bus, dead, wsE{g, i, false})
+					case i%4 == 3:
+						eb.Publish(bus, wsF{g, i, false})
+					default:
+						eb.Publish(bus, wsE{g, i, false})
 					}
 					if i%every == 0 {
 						bus.Wait()
 						for j := 0; j <= i; j++ {
-							if !isDead(j) && !done[g][j].Load() {
+							if !isDead(j) && (!done[g][j].Load() || (hasNested(j) && !doneN[g][j].Load())) {
 								early.Add(1)
 								break
 							}
